@@ -29,7 +29,9 @@ RULE = ('seeded random histories of 5..40 operations (create with/without explic
         'destroy) over the classes A, B (fk to A), P with link tables A--B (two-sided), A--P (one-sided) and P--P (mirrored '
         'self-join); key columns take values in {None,0,1,2} (ties) or are distinct; orderBy of each of the six join pairs '
         'drawn from None / name / -name / lists and tuples of 1..3 names with mixed directions, id included; plus a malformed '
-        'stream (orderBy=[], missing ids, taken explicit ids).  After every step all 13 accessors of every live object are read '
+        'stream (orderBy=[], missing ids, taken explicit ids); each history runs in one of three connection modes: on the classes\' '
+        'own connection, or (3 of 5 cases) with the classes bound to a decoy-filled database while every object is created/fetched '
+        'with an explicit connection= to a second database, directly or through a Transaction of it.  After every step all 13 accessors of every live object are read '
         'and all six tables dumped.  Non-trivial = some accessor returned two or more objects and some list join had a tie or a '
         'None among its keys, or an op was refused; distinct = distinct (orders, op list).')
 EXPLANATION = ('Theorems C13_* (Coq: all histories by induction over the op list, all table contents, all orderBy key lists) over '
@@ -51,6 +53,8 @@ TRUSTED_BASE = [
     'fixture: three classes, default cascade=None on the foreign key, explicit intermediateTable/joinColumn/otherColumn names; '
     'SingleJoin without makeDefault; ManyToMany/OneToMany (the experimental API) not covered',
     'add/remove/fk-by-object operands are objects obtained with cls.get(id) (a missing row aborts the op); add(<int>) of a missing id is out of scope',
+    'connections are not modelled: the same model is compared with histories run on the classes\' own connection, on an explicit '
+    'second connection (classes bound to a decoy-filled database) and inside an uncommitted Transaction of it',
     'the correspondence harness tools/props/c13.py and the cases.v evaluation',
 ]
 
@@ -70,6 +74,8 @@ JOINS = {  # name -> (link table, side, owner class, other class, [adder names l
     'fr': (2, 0, 2, 2, ['Fr', 'Frq']), 'of': (2, 1, 2, 2, ['Of', 'Ofq']),
 }
 COLS = ['id', 'k0', 'k1', 'k2']
+# where a history runs (see build_fixture): 3 of 5 cases away from the classes' default connection
+CONN_MODES = ['default', 'other', 'txn', 'other', 'default']
 
 
 # ---------------------------------------------------------------- generation
@@ -186,7 +192,7 @@ def corpus():
     mk = lambda orders, ops: {'orders': orders, 'ops': ops}
     cr = lambda c, k, fk=None, i=None: {'op': 'create', 'c': c, 'id': i, 'k': k, 'fk': fk or ['none']}
     none6 = [None] * 6
-    return [
+    base = [
         # fixed finding 14: multi-key orderBy on list joins (ties on the first key, None among the second)
         mk([['list', 'k0', '-k1']] * 6,
            [cr(0, [1, None, None]), cr(1, [2, 1, None], ['obj', 1]), cr(1, [2, 3, None], ['id', 1]),
@@ -211,20 +217,33 @@ def corpus():
         mk([['list'], None, None, None, None, ['list']],
            [cr(0, [0, 0, 0]), cr(1, [0, 0, 0], ['obj', 1]), cr(2, [0, 0, 0])]),
     ]
+    # seeded change c13_singlejoin_wrong_connection: the owner lives on an explicit connection / in a transaction
+    single = [cr(0, [0, 0, 0]), cr(1, [0, 0, 0], ['obj', 1]), cr(1, [1, 1, 1], ['id', 1]),
+              {'op': 'setfk', 'id': 1, 'fk': ['none']}, {'op': 'destroy', 'c': 1, 'id': 2}]
+    out = list(base)
+    for mode in ('other', 'txn'):
+        out.append(dict(mk(none6, single), conn=mode))
+        out.append(dict(base[0], conn=mode))
+        out.append(dict(base[3], conn=mode))
+    return out
 
 
 def generate(rng, tier):
     out = []
     n = 640 if tier == 'quick' else 6000
     for k in range(n):
-        out.append(rand_history(rng, rng.randint(5, 40), malformed=(k % 8 == 7), with_id=(k % 3 != 0)))
+        c = rand_history(rng, rng.randint(5, 40), malformed=(k % 8 == 7), with_id=(k % 3 != 0))
+        c['conn'] = CONN_MODES[(k // 3) % 5]        # independent of the k % 3 / k % 8 cycles
+        out.append(c)
     return out
 
 
 def search_cases(rng, tier):
     out = []
     for k in range(1500 if tier == 'quick' else 6000):
-        out.append(rand_history(rng, rng.randint(5, 40), malformed=(k % 8 == 7), with_id=(k % 3 != 0), maxobj=6))
+        c = rand_history(rng, rng.randint(5, 40), malformed=(k % 8 == 7), with_id=(k % 3 != 0), maxobj=6)
+        c['conn'] = CONN_MODES[(k // 3) % 5]
+        out.append(c)
     return out
 
 
@@ -238,8 +257,38 @@ def py_order(o):
 _counter = [0]
 
 
-def build_fixture(orders):
-    """Three fresh classes in a private registry on a private in-memory database."""
+DECOY = [
+    "INSERT INTO va (id, k0, k1, k2) VALUES (1, 0, 0, 0), (2, 1, 1, 1), (3, 2, 2, 2), (4, 0, 1, 2)",
+    "INSERT INTO vb (id, k0, k1, k2, a_id) VALUES (101, 0, 0, 0, 1), (102, 1, 1, 1, 2), (103, 2, 2, 2, 3), "
+    "(104, 0, 1, 2, 4), (105, 2, 1, 0, 1)",
+    "INSERT INTO vp (id, k0, k1, k2) VALUES (101, 0, 0, 0), (102, 1, 1, 1), (1, 2, 2, 2), (2, 0, 1, 2)",
+    "INSERT INTO lab (a_id, b_id) VALUES (1, 101), (2, 102), (3, 103), (4, 104), (1, 105), (101, 1), (102, 2)",
+    "INSERT INTO lap (a_id, p_id) VALUES (1, 101), (2, 102), (3, 1), (4, 2)",
+    "INSERT INTO lpp (from_id, to_id) VALUES (1, 101), (2, 102), (101, 1), (102, 2), (3, 101), (101, 3)",
+]
+
+
+class Ctx(object):
+    """where a history runs: the classes, the connection the work goes through, and whether that
+    connection is handed over explicitly (connection=...) or is the classes' own"""
+    def __init__(self, K, work, explicit, closers):
+        self.K, self.work, self.explicit, self.closers = K, work, explicit, closers
+
+    def get(self, cls, i):
+        return cls.get(i, connection=self.work) if self.explicit else cls.get(i)
+
+    def new(self, cls, **kw):
+        if self.explicit:
+            kw['connection'] = self.work
+        return cls(**kw)
+
+
+def build_fixture(orders, mode='default'):
+    """Three fresh classes in a private registry on a private in-memory database.
+    mode 'default': the classes' own connection does the work.
+    mode 'other':   the classes are bound to a database filled with decoy rows; the history runs on a second
+                    database through an explicit connection=conn2.
+    mode 'txn':     as 'other', through a Transaction of conn2 (nothing is committed)."""
     from sqlobject import SQLObject, IntCol, ForeignKey, MultipleJoin, SQLMultipleJoin, RelatedJoin, \
         SQLRelatedJoin, SingleJoin
     from sqlobject.sqlite.sqliteconnection import SQLiteConnection
@@ -286,9 +335,24 @@ def build_fixture(orders):
         fr, frq = rel('VP', 'VP', o[4], 'Fr', 'lpp', 'from_id', 'to_id', True)
         of, ofq = rel('VP', 'VP', o[5], 'Of', 'lpp', 'to_id', 'from_id', False)
 
-    for c in (VA, VB, VP):
+    K = [VA, VB, VP]
+    for c in K:
         c.createTable()
-    return conn, [VA, VB, VP]
+    if mode == 'default':
+        return Ctx(K, conn, False, [conn])
+    for q in DECOY:
+        conn.query(q)
+    conn2 = SQLiteConnection(':memory:')
+    for c in K:
+        c.createTable(connection=conn2)
+    if mode == 'other':
+        return Ctx(K, conn2, True, [conn2, conn])
+    trans = conn2.transaction()
+
+    class _Rollback(object):
+        def close(self):
+            trans.rollback()
+    return Ctx(K, trans, True, [_Rollback(), conn2, conn])
 
 
 def err_code(e):
@@ -302,7 +366,8 @@ def err_code(e):
     return 0
 
 
-def do_op(K, op):
+def do_op(X, op):
+    K = X.K
     VA, VB, VP = K
     kind = op['op']
 
@@ -311,7 +376,7 @@ def do_op(K, op):
             return {'a': None}
         if fk[0] == 'id':
             return {'aID': fk[1]}
-        return {'a': VA.get(fk[1])}
+        return {'a': X.get(VA, fk[1])}
     if kind == 'create':
         c = K[op['c']]
         kw = dict(zip(('k0', 'k1', 'k2'), op['k']))
@@ -319,26 +384,28 @@ def do_op(K, op):
             kw.update(fk_kw(op['fk']))
         if op['id'] is not None:
             kw['id'] = op['id']
-        c(**kw)
+        X.new(c, **kw)
     elif kind == 'setkey':
-        setattr(K[op['c']].get(op['id']), 'k%d' % op['col'], op['v'])
+        setattr(X.get(K[op['c']], op['id']), 'k%d' % op['col'], op['v'])
     elif kind == 'setfk':
-        b = VB.get(op['id'])
+        b = X.get(VB, op['id'])
         for k, v in fk_kw(op['fk']).items():
             setattr(b, k, v)
     elif kind in ('add', 'remove'):
         j = JOINS[op['j']]
-        x = K[j[2]].get(op['x'])
-        y = K[j[3]].get(op['y'])
+        x = X.get(K[j[2]], op['x'])
+        y = X.get(K[j[3]], op['y'])
         getattr(x, kind + j[4][op['via']])(y)
     elif kind == 'destroy':
-        K[op['c']].get(op['id']).destroySelf()
+        X.get(K[op['c']], op['id']).destroySelf()
     else:
         raise ValueError(kind)
 
 
-def observe(conn, K):
+def observe(X):
+    conn, K = X.work, X.K
     VA, VB, VP = K
+    wrong = []      # objects handed out that are not bound to the connection the history runs on
     tabs = [
         [[r[0], [r[1], r[2], r[3], None]] for r in conn.queryAll('SELECT id, k0, k1, k2 FROM va ORDER BY id')],
         [[r[0], [r[1], r[2], r[3], r[4]]] for r in conn.queryAll('SELECT id, k0, k1, k2, a_id FROM vb ORDER BY id')],
@@ -353,45 +420,50 @@ def observe(conn, K):
     keys = {}       # attribute values of the objects as Python sees them: (class, id) -> [id, k0, k1, k2]
     for ci, (cls, rng_) in enumerate(((VA, range(0, 7)), (VB, range(7, 9)), (VP, range(9, 13)))):
         for row in tabs[ci]:
-            obj = cls.get(row[0])
+            obj = X.get(cls, row[0])
             keys['%d:%d' % (ci, row[0])] = [obj.id, obj.k0, obj.k1, obj.k2]
             for n in rng_:
                 try:
                     v = getattr(obj, ACC[n])
                     if n == 2:
                         res = ['none'] if v is None else ['one', v.id]
+                        got = [] if v is None else [v]
                     else:
-                        res = ['ids', [x.id for x in v]]
+                        got = list(v)
+                        res = ['ids', [x.id for x in got]]
+                    if X.explicit and any(x._connection is not conn for x in got):
+                        wrong.append([n, row[0]])
                 except RecursionError as e:
                     res = ['err', 2, 'RecursionError']
                 except Exception as e:
                     res = ['err', err_code(e), type(e).__name__]
                 acc.append([n, row[0], res])
-    return {'tabs': tabs, 'links': links, 'acc': acc, 'attrs': keys}
+    return {'tabs': tabs, 'links': links, 'acc': acc, 'attrs': keys, 'wrongconn': wrong}
 
 
 def run_case(case):
-    conn, K = build_fixture(case['orders'])
+    X = build_fixture(case['orders'], case.get('conn', 'default'))
     steps = []
     try:
         for op in case['ops']:
             st, exn = 0, None
             try:
-                do_op(K, op)
+                do_op(X, op)
             except Exception as e:
                 n = type(e).__name__
                 st = 1 if n == 'SQLObjectNotFound' else (2 if n == 'DuplicateEntryError' else 9)
                 exn = n
-            o = observe(conn, K)
+            o = observe(X)
             o['status'] = st
             if exn:
                 o['exn'] = exn
             steps.append(o)
     finally:
-        try:
-            conn.close()
-        except Exception:
-            pass
+        for c in X.closers:
+            try:
+                c.close()
+            except Exception:
+                pass
     return {'steps': steps}
 
 
@@ -575,6 +647,9 @@ def failures(case, obs):
                 if a not in live[c1] or b not in live[c2]:
                     yield {'step': si, 'kind': 'dangling-link', 'what': 'link table %d row %r mentions a missing object' % (li, [a, b])}
         res = {(n, i): r for n, i, r in s['acc']}
+        for n, i in s.get('wrongconn', []):
+            yield {'step': si, 'kind': 'connection', 'accessor': ACC[n], 'owner': i,
+                   'what': 'accessor %s of %d handed out an object that is not bound to the owner\'s connection' % (ACC[n], i)}
         for ci in range(3):
             for i in live[ci]:
                 for n in range(13):
@@ -678,14 +753,16 @@ def nontrivial(case, obs):
 
 
 def key(case):
-    return [case['orders'], case['ops']]
+    return [case['orders'], case['ops'], case.get('conn', 'default')]
 
 
 def distribution(cases, obs):
     d = {'ops': {}, 'refused': {}, 'orders': {'none': 0, 'single': 0, 'list1': 0, 'list2': 0, 'list3': 0, 'empty': 0, 'with_id': 0},
          'lengths': {}, 'accessor_reads': 0, 'reads_with_2plus': 0, 'accessor_errors': {}, 'max_objects': 0,
-         'duplicate_links_seen': 0, 'dangling_fk_seen': 0}
+         'duplicate_links_seen': 0, 'dangling_fk_seen': 0, 'connection_mode': {}}
     for c, o in zip(cases, obs):
+        m = c.get('conn', 'default')
+        d['connection_mode'][m] = d['connection_mode'].get(m, 0) + 1
         for x in c['orders']:
             if x is None:
                 d['orders']['none'] += 1
